@@ -23,7 +23,10 @@ def exec_case(case):
     g["E"] = [[int(a), int(b)] for a, b in m.edges]
     events = []
     for ev in case["events"]:
-        m = meshes.build_surface(g["n"], g["F"], coords=g["P"])      # a fresh mesh per run: the cutter leaves attributes on its input
+        if not (g.get("reuse") and not ev["with_features"]):
+            # a fresh mesh per run ... except in the cases marked "reuse", where every cut without features works on the SAME mesh object
+            # (whatever an earlier cutter left on it must not change a later cut)
+            m = meshes.build_surface(g["n"], g["F"], coords=g["P"])
         e = {"op": "cut", "S": list(ev["S"]), "with_features": ev["with_features"], "exc": "", "T": [], "DT": [], "cut": [], "adj": [],
              "oF": [], "onv": 0, "oP": [], "ref": []}
         try:
@@ -146,7 +149,7 @@ def run(ctx):
             if rng.random() < 0.3:
                 evs.append({"S": s, "with_features": 1})
         for k in range(0, len(evs), 12):
-            cases.append({"id": "%s-%d" % (name, k // 12), "given": {"n": nv, "F": F, "P": P, "family": name.split("-")[0] if name.startswith("L-") else name},
+            cases.append({"id": "%s-%d" % (name, k // 12), "given": {"n": nv, "F": F, "P": P, "family": name.split("-")[0] if name.startswith("L-") else name, "reuse": (k // 12) % 2},
                           "events": evs[k:k + 12]})
     obs = ctx.execute("c16", "exec_case", cases, chunksize=4)
     ctx.judge("C16_Trace", "C16_Trace.cfg", obs, "cuts", "c16", "exec_case", batch_events=60)
